@@ -482,6 +482,37 @@ for abstract in (False, True):
             sub = type('QS', (Q,), {})
             if sub.param.x.default == 2.5:
                 bad.append('... and its concrete subclass silently inherits default 2.5 with %s' % what)
+# a declaration that leaves the default unspecified is still checked: by the constructor, or when the class is created
+for what, mk in (('List(bounds=(1, 3))', lambda: param.List(bounds=(1, 3))), ('HookList(bounds=(1, 3))', lambda: param.HookList(bounds=(1, 3))),
+                 ('Tuple(length=2) default ()', lambda: param.Tuple(default=(), length=2)), ('Number(bounds=(1, 3)) default 0', lambda: param.Number(default=0, bounds=(1, 3)))):
+    for route in ('statement', 'below-skipping-ancestors', 'add_parameter'):
+        try:
+            if route == 'statement':
+                L = type('L', (param.Parameterized,), {'v': mk()})
+            elif route == 'below-skipping-ancestors':
+                L0 = type('L0', (param.Parameterized,), {}); L1 = type('L1', (L0,), {}); L = type('L', (L1,), {'v': mk()})
+            else:
+                L = type('L', (param.Parameterized,), {}); L.param.add_parameter('v', mk())
+        except (ValueError, TypeError, RuntimeError):
+            continue
+        p = L.param.v
+        bad.append('%s declared by %s: the class exists with default %r, which its own constraints exclude' % (what, route, p.default))
+# every way of creating a class inherits and re-validates alike
+for route in ('type', 'parameterized_class'):
+    PA = type('PA', (param.Parameterized,), {'x': param.Number(default=5, bounds=(0, 10), doc='parent doc')})
+    def create(name, params, bases):
+        if route == 'type':
+            return type(name, bases, dict(params))
+        return param.parameterized_class(name, dict(params), bases)
+    PB = create('PB', {'x': param.Number(doc='own doc')}, (PA,))
+    got = (PB.param.x.default, PB.param.x.bounds, PB.param.x.doc)
+    if got != (5, (0, 10), 'own doc'):
+        bad.append('class created by %s re-declaring x = Number(doc=...) below Number(5, bounds=(0, 10)): (default, bounds, doc) == %r' % (route, got))
+    try:
+        PC = create('PC', {'x': param.Number(bounds=(0, 3))}, (PA,))
+        bad.append('class created by %s with x = Number(bounds=(0, 3)) below default 5 exists (default %r)' % (route, PC.param.x.default))
+    except (RuntimeError, ValueError):
+        pass
 class V(param.Number):
     def _validate(self, val):
         if val == 2.5:
